@@ -182,10 +182,10 @@ def meta_body(ctx, cfg):
         for l in range(cfg["n_layers"]):
             one, _ = build(cfg, n_layers=1, layer_altitudes=[cfg["layer_altitudes"][l]], layer_r0s=[cfg["layer_r0s"][l]], layer_L0s=[cfg["layer_L0s"][l]])
             acc += one.astype(np.float64)
-        ctx.close(b, acc, 4 * cfg["n_layers"] * EPS32, "covariance additive over layers", scale=scale, name="additivity")
+        ctx.close(b, acc, TOL, "covariance additive over layers", scale=scale, name="additivity")
     # r0 scaling
     sc, _ = build(cfg, layer_r0s=[r * k for r in cfg["layer_r0s"]])
-    ctx.close(sc.astype(np.float64), b * k ** (-5.0 / 3), 4 * EPS32, "covariance scales as r0^(-5/3)", scale=scale * k ** (-5.0 / 3), name="r0 scaling")
+    ctx.close(sc.astype(np.float64), b * k ** (-5.0 / 3), TOL, "covariance scales as r0^(-5/3)", scale=scale * k ** (-5.0 / 3), name="r0 scaling")
     # wavelength of one WFS scaled by k: block (i,j) scales by k, diagonal block by k^2
     w = cfg["which"] % cfg["n_wfs"]
     wl = list(cfg["wfs_wavelengths"])
@@ -194,7 +194,7 @@ def meta_body(ctx, cfg):
     fac = np.ones_like(b)
     fac[off[w]:off[w + 1], :] *= k
     fac[:, off[w]:off[w + 1]] *= k
-    ctx.close(scw.astype(np.float64), b * fac, 4 * EPS32, "covariance scales as the product of the two sensors' wavelengths", scale=scale * k * k, name="wavelength scaling")
+    ctx.close(scw.astype(np.float64), b * fac, TOL, "covariance scales as the product of the two sensors' wavelengths", scale=scale * k * k, name="wavelength scaling")
     # permuting the WFS list permutes the blocks
     if cfg["n_wfs"] >= 2:
         perm = list(gen.np_rng(cfg["perm_seed"]).permutation(cfg["n_wfs"]))
@@ -203,11 +203,11 @@ def meta_body(ctx, cfg):
             pc[key] = [cfg[key][p] for p in perm]
         pm, _ = build(pc)
         idx = np.concatenate([np.arange(off[p], off[p + 1]) for p in perm])
-        ctx.close(pm.astype(np.float64), b[np.ix_(idx, idx)], 4 * EPS32, "permuting the WFS list permutes the blocks", scale=scale, name="wfs permutation")
+        ctx.close(pm.astype(np.float64), b[np.ix_(idx, idx)], TOL, "permuting the WFS list permutes the blocks", scale=scale, name="wfs permutation")
     # common translation of all guide stars with a single NGS configuration leaves the matrix unchanged
     if not any(cfg["gs_altitudes"]):
         tr, _ = build(cfg, gs_positions=[[p[0] + cfg["shift"][0], p[1] + cfg["shift"][1]] for p in cfg["gs_positions"]])
-        ctx.close(tr.astype(np.float64), b, 64 * EPS32, "translating every NGS by a common offset changes nothing", scale=scale, name="common translation")
+        ctx.close(tr.astype(np.float64), b, TOL, "translating every NGS by a common offset changes nothing", scale=scale, name="common translation")
     # threads=2 assembles the same matrix (duplicated assembly code; scheduling is C03's business)
     mp, _ = build(cfg, threads=2)
     ctx.equal(mp, base, "threads=2 build differs from the single-process build")
